@@ -206,19 +206,22 @@ func (w *W) settleRelay() error {
 		}
 		// every relay goroutine is parked on a pending dial or on a live idle connection, and every
 		// push whose target has answered has gone through AddRtmpPushSession
-		if gor+int(atomic.LoadInt64(&w.ExtraGor)) == pend+len(live)+w.PsExpected && pushAdds == startedPush {
+		have, want := pend+len(live)+w.PsExpected, gor+int(atomic.LoadInt64(&w.ExtraGor))
+		if (have == want || (w.RelaxedRelay && have > want)) && (pushAdds == startedPush || w.RelaxedRelay) {
 			// the network must still be quiet (a goroutine may have moved between the two looks) and no
 			// origin may have unread output (a dial accepted after this round's pump)
 			unread := false
 			for _, d := range live {
-				if d.Conn.HasOutput() {
+				if d.Origin != nil && d.Conn.HasOutput() { // (a scripted peer without an origin is read by the harness)
 					unread = true
 				}
 			}
 			if !unread && w.Net.IsQuiescent() {
 				return nil
 			}
-			continue
+			if time.Now().Before(deadline) {
+				continue
+			}
 		}
 		if time.Now().After(deadline) {
 			return fmt.Errorf("%w: relay goroutines never came to rest: %d relay goroutines alive (%d push sessions handed to their group), environment has %d pending dials, %d live client connections (%d push targets answered), %d GB28181 sessions expected: %s",
